@@ -49,6 +49,7 @@ CONSTANTS
     NRpc,           \* each peer sends RPCs 1..NRpc, in this order
     Subnets,        \* names of subnets (domain of the counter)
     SharedA,        \* peers of SharedA share subnet "A"; every other peer is alone in the subnet named like itself
+    OneShot,        \* peers that send only RPC 1 (keeps a third peer affordable)
     InflightCaps,   \* Init picks lim.maxInflight from this set (>= 1)
     SubnetCaps,     \* ... lim.maxSubnet (<= 0: the subnet limit is disabled)
     InConns, OutConns,  \* inbound / outbound connection attempts
@@ -142,7 +143,7 @@ Init == \E a \in InflightCaps, b \in SubnetCaps, c \in InCaps, d \in OutCaps :
 (* RPC family *)
 
 \* environment: the peer opens a stream and writes the RPC id (RPCs of one peer in order)
-G_Arrive(p, r) == st[p][r] = "new" /\ (IF r = 1 THEN TRUE ELSE st[p][r - 1] # "new")
+G_Arrive(p, r) == st[p][r] = "new" /\ (IF r = 1 THEN TRUE ELSE p \notin OneShot /\ st[p][r - 1] # "new")
 Arrive(p, r) ==
     /\ G_Arrive(p, r)
     /\ st' = [st EXCEPT ![p][r] = "arrived"]
@@ -360,10 +361,18 @@ G_AllowCheck(c) ==
     /\ c \in OutConns => \A d \in OutConns : conn[d] \notin {"checked", "shaken"}
 AllowCheck(c) ==
     /\ G_AllowCheck(c)
-    /\ IF stop = "no" /\ (c \in InConns => ~lclosed) /\ CountFor(c) < CapFor(c)
+    /\ IF stop = "no" /\ CountFor(c) < CapFor(c)      \* (a connection accepted before the listener closed may get here after it)
          THEN conn' = [conn EXCEPT ![c] = "checked"] /\ tgLive' = tgLive + 1 /\ act' = Lbl("AllowCheck", c, 1)
          ELSE conn' = [conn EXCEPT ![c] = "rejected"] /\ tgLive' = tgLive /\ act' = Lbl("AllowCheck", c, 0)
     /\ UNCHANGED <<lim, st, out, sem, sub, loopOn, gone, stop, lclosed, peersClosed, dead, runLive, th>>
+
+\* the listener is closed: the connection is not taken at all
+G_Refuse(c) == conn[c] = "idle" /\ c \in InConns /\ lclosed
+Refuse(c) ==
+    /\ G_Refuse(c)
+    /\ conn' = [conn EXCEPT ![c] = "rejected"]
+    /\ act' = Lbl("Refuse", c, 0)
+    /\ UNCHANGED <<lim, st, out, sem, sub, loopOn, gone, tgLive, stop, lclosed, peersClosed, dead, runLive, th>>
 
 G_Handshake(c) == conn[c] = "checked"
 Handshake(c) ==
@@ -417,7 +426,7 @@ EnvNext ==
     \/ \E p \in Peers : Disconnect(p)
     \/ CloseListener \/ StopBegin
     \/ \E t \in Threads : ThAdd(t)
-    \/ \E c \in Conns : AllowCheck(c) \/ Handshake(c)
+    \/ \E c \in Conns : AllowCheck(c) \/ Refuse(c) \/ Handshake(c)
     \/ \E c \in Conns : (stop = "no" /\ Abort(c)) \/ (~dead[c] /\ RemovePeer(c))    \* the remote hangs up
 
 \* steps the system takes on its own; fair (handlers return, threads finish, Run closes the peers)
@@ -434,7 +443,7 @@ InternalNext ==
 \* so that TLC's deadlock check flags exactly the states in which something is stuck (a Stop that hangs)
 Terminated ==
     /\ stop = "returned"
-    /\ \A p \in Peers, r \in RpcIds : st[p][r] = "final"
+    /\ \A p \in Peers, r \in RpcIds : st[p][r] = "final" \/ (p \in OneShot /\ r > 1)
     /\ \A c \in Conns : conn[c] \in {"rejected", "closed"}
     /\ \A t \in Threads : th[t] \in {"done", "refused"}
 Idle == Terminated /\ UNCHANGED vars
